@@ -275,6 +275,28 @@ def target_has_pending_compressed(
     return False
 
 
+def target_layers_in_order(target: ig.IterationGraph, output_layers: dict[str, TensorLayer]) -> bool:
+    """Whether the target chain iterates every layer up to the last compressed one in layer order.
+
+    The output is appended to layer by layer, so its layers must be iterated in order until only
+    dense layers remain. Dense layers before a compressed layer can therefore not be reordered in
+    the output, even though they can be in an input. Iteration graphs that do so must be rejected
+    because they cannot be lowered.
+    """
+    last_compressed = max(
+        (layer.layer for layer in output_layers.values() if layer.mode == Mode.compressed),
+        default=-1,
+    )
+    node = target
+    expected_layer = 0
+    while isinstance(node, ig.IterationNode) and expected_layer <= last_compressed:
+        if output_layers[node.index_variable].layer != expected_layer:
+            return False
+        expected_layer += 1
+        node = node.next
+    return True
+
+
 def merge_assignment(
     target: ig.IterationGraph, expression: ig.IterationGraph, output_layers: dict[str, TensorLayer]
 ) -> Iterator[ig.IterationGraph]:
@@ -327,6 +349,9 @@ def to_iteration_graphs(
     }
 
     for target_graph in to_iteration_graphs_expression(assignment.target, formats, []):
+        if not target_layers_in_order(target_graph, output_layers):
+            continue
+
         for expression_graph in to_iteration_graphs_expression(
             assignment.expression, formats, count(1)
         ):
